@@ -41,21 +41,29 @@ impl Default for LJ2 {
 
 impl Potential for LJ2 {
     fn energy(&self, other: &Self) -> f64 {
-        let sigma_squared = self.sigma.powi(2);
+        // The interaction of two unlike particles uses the Lorentz-Berthelot mixing rules, so the
+        // energy is the same whichever of the two particles it is calculated from.
+        let sigma = 0.5 * (self.sigma + other.sigma);
+        let epsilon = f64::sqrt(self.epsilon * other.epsilon);
+        let cutoff = match (self.cutoff, other.cutoff) {
+            (Some(a), Some(b)) => Some(f64::max(a, b)),
+            (a, b) => a.or(b),
+        };
+
+        let sigma_squared = sigma.powi(2);
         let r_squared = (self.position - other.position).norm_squared();
         let sigma2_r2_cubed = (sigma_squared / r_squared).powi(3);
 
-        match self.cutoff {
+        match cutoff {
             Some(x) => {
                 if r_squared < x * x {
-                    let shift =
-                        4. * self.epsilon * ((self.sigma / x).powi(12) - (self.sigma / x).powi(6));
-                    4. * self.epsilon * (sigma2_r2_cubed.powi(2) - sigma2_r2_cubed) - shift
+                    let shift = 4. * epsilon * ((sigma / x).powi(12) - (sigma / x).powi(6));
+                    4. * epsilon * (sigma2_r2_cubed.powi(2) - sigma2_r2_cubed) - shift
                 } else {
                     0.
                 }
             }
-            None => 4. * self.epsilon * (sigma2_r2_cubed.powi(2) - sigma2_r2_cubed),
+            None => 4. * epsilon * (sigma2_r2_cubed.powi(2) - sigma2_r2_cubed),
         }
     }
 }
